@@ -680,43 +680,75 @@ _prev_comprehension = M.comprehension
 
 
 def _comprehension(it, fr, e, kind):
-    if kind == 'dict' and len(e.generators) == 1 and not e.generators[0].ifs:
-        gen = e.generators[0]
+    """list / set / dict comprehensions with one generator over an array-list of symbolic length:
+      * length determined by the path condition (bounded model queries pin lengths; study_spec.metrics is pinned to d):
+        evaluated element by element, exactly like a comprehension over a concrete list (filters fork);
+      * otherwise, dict / set without a filter: the function dictcomp(xs) of the list (see below);
+      * otherwise, list: the engine's definitional filter/map encoding (pyvc.models.symbolic_filter_map)."""
+    gens = e.generators
+    if kind in ('dict', 'set', 'list') and len(gens) == 1:
+        gen = gens[0]
         first = it.eval(fr, gen.iter)
-        if isinstance(first, SymList) and M.try_iterate(it, first) is None:
+        if isinstance(first, SymList) and not isinstance(first, NP.EnumList) and M.try_iterate(it, first) is None:
             c = pinned_length(it, first.n)
             if c is not None:
-                d = M.PyDict()
+                out = []
                 for i in range(c):
                     fr2 = E.Frame(fr.mod, {}, parent=fr)
                     it.assign(fr2, gen.target, first.get(z3.IntVal(i)))
-                    d.set(it, it.eval(fr2, e.key), it.eval(fr2, e.value))
+                    if all(it.truth(it.eval(fr2, cnd)) for cnd in gen.ifs):
+                        out.append((it.eval(fr2, e.key), it.eval(fr2, e.value)) if kind == 'dict' else it.eval(fr2, e.elt))
+                if kind == 'list':
+                    return out
+                if kind == 'set':
+                    return M.make_set(it, out)
+                d = M.PyDict()
+                for k_, v_ in out:
+                    d.set(it, k_, v_)
                 return d
-            if it.pure:
-                raise Unsupported('dict comprehension over a symbolic list in pure mode')
-            J = it.run.fresh('dj', z3.IntSort())
-            fr2 = E.Frame(fr.mod, {}, parent=fr)
-            it.pure += 1
-            try:
-                it.assign(fr2, gen.target, first.get(J))
-                kt, vt = E.to_z3(it.eval(fr2, e.key)), E.to_z3(it.eval(fr2, e.value))
-            finally:
-                it.pure -= 1
-            kinds = {Str: 'str', z3.IntSort(): 'int', xreal.XReal: 'float', z3.BoolSort(): 'bool'}
-            if kt.sort() not in kinds or vt.sort() not in kinds:
-                raise Unsupported('dict comprehension with key/value sorts %s/%s' % (kt.sort(), vt.sort()))
-            # the dictcomp function is named by what is computed per element (not by source text or local names)
-            e0 = z3.Const('elem!canon', first.arr.sort().range())
-            canon = lambda t: str(z3.substitute(t, (z3.Select(first.arr, J), e0)))
-            tag = (canon(kt), canon(vt), str(first.arr.sort()))
-            DOM, VAL = _dictcomp_fns(tag, first.arr.sort(), kt.sort(), vt.sort())
-            it.run.assumed.add('{k(m): v(m) for m in xs} over a list of symbolic length is the function dictcomp(xs) of the list: '
-                               'key set = {k(m)}, value of a key = v of its last occurrence (language semantics; exact in the bounded model queries)')
-            return SD.SymMap(kinds[kt.sort()], kinds[vt.sort()], dom=DOM(first.arr, first.n), val=VAL(first.arr, first.n))
+            if kind in ('dict', 'set') and not gen.ifs:
+                if it.pure:
+                    raise Unsupported('%s comprehension over a symbolic list in pure mode' % kind)
+                J = it.run.fresh('dj', z3.IntSort())
+                fr2 = E.Frame(fr.mod, {}, parent=fr)
+                it.pure += 1
+                try:
+                    it.assign(fr2, gen.target, first.get(J))
+                    kt = E.to_z3(it.eval(fr2, e.key if kind == 'dict' else e.elt))
+                    vt = E.to_z3(it.eval(fr2, e.value)) if kind == 'dict' else kt
+                finally:
+                    it.pure -= 1
+                kinds = {Str: 'str', z3.IntSort(): 'int', xreal.XReal: 'float', z3.BoolSort(): 'bool'}
+                if kt.sort() not in kinds or vt.sort() not in kinds:
+                    raise Unsupported('%s comprehension with key/value sorts %s/%s' % (kind, kt.sort(), vt.sort()))
+                # the dictcomp function is named by what is computed per element (not by source text or local names)
+                e0 = z3.Const('elem!canon', first.arr.sort().range())
+                canon = lambda t: str(z3.substitute(t, (z3.Select(first.arr, J), e0)))
+                tag = (canon(kt), canon(vt), str(first.arr.sort()))
+                DOM, VAL = _dictcomp_fns(tag, first.arr.sort(), kt.sort(), vt.sort())
+                it.run.assumed.add('{k(m): v(m) for m in xs} / {k(m) for m in xs} over a list of symbolic length is the function dictcomp(xs) of the list: '
+                                   'key set = {k(m)}, value of a key = v of its last occurrence (language semantics; exact in the bounded model queries)')
+                if kind == 'set':
+                    return SD.SymSet(kinds[kt.sort()], mem=DOM(first.arr, first.n))
+                return SD.SymMap(kinds[kt.sort()], kinds[vt.sort()], dom=DOM(first.arr, first.n), val=VAL(first.arr, first.n))
     return _prev_comprehension(it, fr, e, kind)
 
 
 M.comprehension = _comprehension
+
+_orig_contains = M.contains
+
+
+def _contains(it, container, x):
+    """`x in s` for a concrete-spine set/dict with symbolic elements inside a quantified context (comprehension filter over a
+    symbolic list): the disjunction of the equalities instead of forking"""
+    if it.pure and isinstance(container, (M.PySet, M.PyDict)):
+        keys = container.elems if isinstance(container, M.PySet) else container.keys()
+        return E.zor(*[E.eq_values(x, y) for y in keys])
+    return _orig_contains(it, container, x)
+
+
+M.contains = _contains
 
 _orig_set = M.BUILTINS['set'].fn
 
@@ -780,7 +812,10 @@ def lot_dictcomp(arr):
 
 
 def cons(g, t):
-    return z3.And([acc(T_(), 'state')(t) == SUCCEEDED] + [trial_has(g, t, mid) for mid, _ in g['metrics']])
+    """the considered trials of the property statement: successfully completed, reports every configured metric, and no
+    objective value is NaN"""
+    return z3.And([acc(T_(), 'state')(t) == SUCCEEDED] + [trial_has(g, t, mid) for mid, _ in g['metrics']]
+                  + [z3.Not(xreal.is_nan(trial_val(g, t, mid))) for mid, _ in g['metrics']])
 
 
 def vec(g, t, k):
@@ -951,9 +986,15 @@ def _list_trials(it, args, kw):
             ln, arr = metrics_of(L.arr[i])
             run.assume(ln == c)
             # the model search is restricted (it only has to find replayable inputs): a trial reports the configured
-            # metrics in order, except that the last one may carry another name (a missing metric)
-            for j in range(min(c, len(mids))):
-                mid = acc(MT, 'metric_id')(arr[j])
+            # metrics in order, except that the last one may carry another name (a missing metric); in the second search
+            # stage ('perm') the trials after the first report them in any order
+            tids = [acc(MT, 'metric_id')(arr[j]) for j in range(min(c, len(mids)))]
+            if run.c11.get('search') == 'perm' and i > 0 and len(mids) > 1:
+                for t_ in tids:
+                    run.assume(z3.Or([t_ == m for m in mids] + [t_ == other]))
+                run.assume(z3.Distinct(*tids))
+                continue
+            for j, mid in enumerate(tids):
                 run.assume(mid == mids[j] if j < len(mids) - 1 else z3.Or(mid == mids[j], mid == other))
     return L
 
@@ -980,7 +1021,8 @@ def lot_entry(d):
             run.ghost['c11.src1'] = z3.K(z3.IntSort(), z3.IntVal(0))
             run.ghost['c11.src3'] = z3.K(z3.IntSort(), z3.IntVal(0))
             run.np_defer_facts = True
-            run.c11 = dict(nan_finding_open=LOT_NAN_OPEN, metrics=metrics, roles=LOT_ROLES, sk=sk, req=req, mlen=None if sz is None else sz[1], pin_n=None if sz is None else sz[0])
+            run.c11 = dict(nan_finding_open=LOT_NAN_OPEN, metrics=metrics, roles=LOT_ROLES, sk=sk, req=req, mlen=None if sz is None else sz[1], pin_n=None if sz is None else sz[0],
+                           search=None if sz is None or len(sz) < 3 else sz[2])
             cls = ModuleInfo.get(SVC).classes['VizierServicer']
             return it.invoke(E.FuncVal(cls.mod, cls.methods['ListOptimalTrials'], cls), [svc, req, None], {})
         return entry
@@ -1416,8 +1458,21 @@ def fast_post(pre, kind):
         iff = (pre + '.iff', z3.Implies(rng, res.at(c) == spec))
         calls = [x for x in g.get('calls', []) if x['who'].startswith('self.')]
         sorts = getattr(run, 'np_argsorts', [])
-        if len(calls) != 3 or len(sorts) != (2 if kind == 'against' else 1):
-            return obs + [iff]
+        if kind == 'optimal':
+            # the recursive calls by role: halves (is_pareto_optimal on the rows from 0 / from the split) and cross checks
+            # (is_pareto_optimal_against of one half against the other; the one for the higher half exists since 14d2f74)
+            halves = [x for x in calls if x['who'] == 'self.is_pareto_optimal']
+            cross = [x for x in calls if x['who'] == 'self.is_pareto_optimal_against']
+            lo_h, hi_h = [x for x in halves if conc(x['prl']) == 0], [x for x in halves if conc(x['prl']) != 0]
+            lo_x, hi_x = [x for x in cross if conc(x['prl']) == 0], [x for x in cross if conc(x['prl']) != 0]
+            if len(lo_h) != 1 or len(hi_h) != 1 or len(lo_x) != 1 or len(hi_x) > 1 or len(sorts) != 1:
+                return obs + [iff]
+            calls = [hi_h[0], lo_h[0], lo_x[0]]
+            upper_cross = hi_x[0]['g'] if hi_x else None
+        else:
+            upper_cross = None
+            if len(calls) != 3 or len(sorts) != 2:
+                return obs + [iff]
         # ---- the divide-and-conquer path: proof script (Appendix F); every step is an obligation (cut rule)
         L = lambda name, f, *tags: (pre + '.' + name, need(f, *tags), 'lemma')       # default: neither definitions nor order facts
         t, t2, a, y = z3.Int('t!fp'), z3.Int('t2!fp'), z3.Int('a!fp'), z3.Int('y!fp')
@@ -1463,11 +1518,13 @@ def fast_post(pre, kind):
             strict_sorted = L('lemma.lower_point_cannot_dominate_upper_point_without_ties',
                               z3.Or(tie, z3.ForAll([t, t2], z3.Implies(z3.And(t >= 0, t < sp_, t2 >= sp_, t2 < nz), z3.Not(GEf(pp(t), pp(t2)))),
                                                    patterns=[GEf(pp(t), pp(t2))])), 'def', 'sorted')
+        uparts = [gU] + ([upper_cross] if upper_cross is not None else [])
         obs += [
             L('step.position', z3.Implies(rng, z3.And(t0 >= 0, t0 < nz, pp(t0) == c))),
-            L('step.result_upper', z3.Implies(z3.And(rng, t0 >= sp_), res.at(c) == gU(t0))),
+            L('step.result_upper', z3.Implies(z3.And(rng, t0 >= sp_), res.at(c) == z3.And(*[p_(t0) for p_ in uparts]))),
             L('step.result_lower', z3.Implies(z3.And(rng, t0 < sp_), res.at(c) == z3.And(gL(t0), gC(t0)))),
             L('step.upper.dominated_in_part_is_dominated', z3.Implies(z3.And(rng, t0 >= sp_, z3.Not(gU(t0))), z3.Not(spec))),
+        ] + ([L('step.upper.cross_dominated_is_dominated', z3.Implies(z3.And(rng, t0 >= sp_, z3.Not(upper_cross(t0))), z3.Not(spec)))] if upper_cross is not None else []) + [
             L('step.lower.dominated_in_part_is_dominated', z3.Implies(z3.And(rng, t0 < sp_, z3.Not(gL(t0))), z3.Not(spec))),
             L('step.lower.cross_dominated_is_dominated', z3.Implies(z3.And(rng, t0 < sp_, z3.Not(gC(t0))), z3.Not(spec))),
             # converse steps: for every dominating input row a1 (universally, triggered by GE(a1, c)) ...
@@ -1476,14 +1533,16 @@ def fast_post(pre, kind):
             # ... then in the form used by the conclusion (one instantiation of the line above at the dominating row)
             L('step.lower.dominated_is_dominated_in_part_or_cross', z3.Implies(z3.And(rng, t0 < sp_, gL(t0), gC(t0)), spec)),
         ]
-        if strict_sorted is not None:
+        tie_open = kind == 'optimal' and g.get('finding_open') and upper_cross is None
+        if strict_sorted is not None and tie_open:
             obs.append(strict_sorted)
-        if kind == 'optimal' and g.get('finding_open'):
+        if tie_open:
             expect_open(iff[1])
         obs.append(L('step.upper.dominated_is_dominated_in_part.pointwise',
-                     z3.ForAll([a1], z3.Implies(z3.And(rng, t0 >= sp_, a1 >= 0, a1 < zi(m), body(a1, c)), z3.Not(gU(t0))), patterns=[GEf(a1, c)])))
-        obs.append(L('step.upper.dominated_is_dominated_in_part', z3.Implies(z3.And(rng, t0 >= sp_, gU(t0)), spec)))
-        if kind == 'optimal' and g.get('finding_open'):
+                     z3.ForAll([a1], z3.Implies(z3.And(rng, t0 >= sp_, a1 >= 0, a1 < zi(m), body(a1, c)), z3.Or(*[z3.Not(p_(t0)) for p_ in uparts])),
+                               patterns=[GEf(a1, c)])))
+        obs.append(L('step.upper.dominated_is_dominated_in_part', z3.Implies(z3.And(*([rng, t0 >= sp_] + [p_(t0) for p_ in uparts])), spec)))
+        if tie_open:
             expect_open(obs[-1][1])
             expect_open(obs[-2][1])
         # the conclusion is a propositional combination of the steps above
@@ -1498,7 +1557,7 @@ FAST_KNOWN = ('FastParetoOptimalAlgorithm.is_pareto_optimal is wrong when two po
 
 
 def fast_known(chk):
-    if not chk.finding_for('C11.Fast.is_pareto_optimal.iff'):
+    if not open_finding(chk, 'C11.Fast.is_pareto_optimal.iff'):
         return None
     cls = lambda p: has_tie_in_coordinate_0(p.run.c11['P'], p.run.c11['n'])
     return {'C11.Fast.is_pareto_optimal.iff': (FAST_KNOWN, cls),
@@ -1641,7 +1700,7 @@ def check_xla_frontier(chk, tier, k, via_class=False):
     tag = '' if via_class else '[num_shards=%d]' % k
     rn = support_rename(pre)
     known = None
-    if k == 1 and chk.finding_for('C11.xla.is_frontier.iff[num_shards=1]'):
+    if k == 1 and open_finding(chk, 'C11.xla.is_frontier.iff[num_shards=1]'):
         known = {pre + '.iff': (XLA_KNOWN, lambda p: True)}
     Fn(chk, tier, name, xla_frontier_entry(k, via_class), xla_frontier_post(pre), replay_of=replay_points('xla', {'fn': name, 'num_shards': k}),
        known=known, bounded_sizes=[(2, 1), (2, 2), (3, 2)], rename=(lambda x: rn(x) + tag), workers=1, expect_paths=1,
@@ -1717,7 +1776,7 @@ def xla_preamble(chk, tier):
         chk.function(XLA, f)
     chk.assume('jax.numpy is modelled like numpy on the comparison-only fragment; jax.vmap is the pointwise map, jax.jit the identity '
                '(pyvc/np_model.py); is_frontier is verified for every number of points and columns and for the enumerated shard counts '
-               '1 (finding), 2, 3, 4 and the default 10 (the loop over the shard intervals is unrolled)')
+               '1, 2, 3, 4, 5 and the default 10 (the loop over the shard intervals is unrolled for each count)')
 
 
 # ------------------------------------------------------------------------------------------ 5b. bounded stand-ins (never counted as proved)
@@ -1743,9 +1802,11 @@ def collect_bounded(chk, pool, tier):
         chk.error('C11.bounded.Fast.exhaustive_small_scope', 'the enumeration driver failed: %s' % raw[-800:])
     else:
         bad = out['optimal_failures_without_tie'] + out['against_failures']
+        if 'C11.Fast.is_pareto_optimal.iff' not in ACTIVE_FINDINGS:
+            bad = out['example_tie'] + bad          # no open finding: a failure on a tie in coordinate 0 is a failure like any other
         chk.bounded_standin('C11.bounded.Fast.exhaustive_small_scope', scope, 'held' if not bad else 'failed',
-                            detail={'checked': out['checked'], 'is_pareto_optimal failures, all with a tie in coordinate 0 (finding 8)': out['optimal_failures_with_tie_in_coordinate_0'],
-                                    'failures outside the finding class': len(bad)})
+                            detail={'checked': out['checked'], 'is_pareto_optimal failures with a tie in coordinate 0': out['optimal_failures_with_tie_in_coordinate_0'],
+                                    'failures': len(bad)})
         if bad:
             violation('C11.bounded.Fast.exhaustive_small_scope', 'FastParetoOptimalAlgorithm', bad[0], scope)
     # xla_pareto.is_frontier
@@ -1754,9 +1815,10 @@ def collect_bounded(chk, pool, tier):
     if out is None or 'checked' not in out:
         chk.error('C11.bounded.xla.is_frontier.exhaustive_small_scope', 'the enumeration driver failed: %s' % raw[-800:])
     else:
-        bad = [r for k, v in out['failures_by_num_shards'].items() if k != '1' for r in v]
+        skip = {'1'} if 'C11.xla.is_frontier.iff[num_shards=1]' in ACTIVE_FINDINGS else set()
+        bad = [r for k, v in out['failures_by_num_shards'].items() if k not in skip for r in v]
         chk.bounded_standin('C11.bounded.xla.is_frontier.exhaustive_small_scope', scope, 'held' if not bad else 'failed',
-                            detail={'checked': out['checked'], 'num_shards=1 failures (finding 19)': len(out['failures_by_num_shards'].get('1', []))})
+                            detail={'checked': out['checked'], 'failures': len(bad)})
         if bad:
             violation('C11.bounded.xla.is_frontier.exhaustive_small_scope', 'is_frontier', bad[0], scope)
     # InRamPolicySupporter.GetBestTrials: the selection step is checked ONLY by this bounded enumeration (label conversion goes
@@ -1768,21 +1830,22 @@ def collect_bounded(chk, pool, tier):
     if out is None or 'checked' not in out:
         chk.error('C11.bounded.GetBestTrials.selection', 'the enumeration driver failed: %s' % raw[-800:])
         return
-    classes = [('C11.bounded.GetBestTrials.single_objective_returns_all_tied_best', 'single_objective_tie_returns_one'),
-               ('C11.bounded.GetBestTrials.infeasible_never_reported', 'infeasible_only_returns_infeasible'),
-               ('C11.bounded.GetBestTrials.multi_objective_pareto_set', 'multi_objective_with_infeasible_returns_nothing')]
+    classes = [('C11.bounded.GetBestTrials.single_objective_returns_all_tied_best', 'single_objective_tie_returns_one', 'example_tie'),
+               ('C11.bounded.GetBestTrials.infeasible_never_reported', 'infeasible_only_returns_infeasible', 'example_infeasible_only'),
+               ('C11.bounded.GetBestTrials.multi_objective_pareto_set', 'multi_objective_with_infeasible_returns_nothing', 'example_multi_objective')]
     detail = {'checked': out['checked'], 'failures outside the recorded classes': len(out['other_failures'])}
-    for name, key in classes:
+    for name, key, ex in classes:
         detail[key] = out[key]
-    chk.bounded_standin('C11.bounded.GetBestTrials.selection', scope, 'held outside the recorded findings' if not out['other_failures'] else 'failed', detail=detail)
-    for name, key in classes:
-        f = chk.finding_for(name)
+    failed = bool(out['other_failures']) or any(out[key] and name not in ACTIVE_FINDINGS for name, key, ex in classes)
+    chk.bounded_standin('C11.bounded.GetBestTrials.selection', scope, 'held' if not failed else 'failed', detail=detail)
+    for name, key, ex in classes:
+        f = open_finding(chk, name)
         if out[key] and f is not None:
             chk.obligation(name, 'InRamPolicySupporter.GetBestTrials', 'bounded-enumeration', report.KNOWN, 0.0,
                            detail={'bounded': scope, 'failing inputs in the recorded class': out[key], 'failures outside the recorded classes': len(out['other_failures'])},
                            finding='[bounded check] ' + f['what'])
         elif out[key]:
-            violation(name, 'InRamPolicySupporter.GetBestTrials', out.get('example_' + key.split('_returns')[0], out), scope)
+            violation(name, 'InRamPolicySupporter.GetBestTrials', (out.get(ex) or [out])[0], scope)
     if out['other_failures']:
         violation('C11.bounded.GetBestTrials.selection', 'InRamPolicySupporter.GetBestTrials', out['other_failures'][0], scope)
 
@@ -1860,10 +1923,10 @@ def check_list_optimal_d(chk, tier, d):
     tag = '[d=%d]' % d
     rn = support_rename('C11.ListOptimalTrials')
     global LOT_NAN_OPEN
-    known = lot_known(d) if chk.finding_for('C11.ListOptimalTrials.no_nan_objective') else None
+    known = lot_known(d) if open_finding(chk, 'C11.ListOptimalTrials.no_nan_objective') else None
     LOT_NAN_OPEN = known is not None
     Fn(chk, tier, LOT, lot_entry(d), lot_post(d), replay_of=lot_replay(d), known=known,
-       bounded_sizes=[(2, max(d, 1)), (3, max(d, 1))] if d else [(2, 1)],
+       bounded_sizes=([(2, d), (2, d, 'perm'), (3, d)] if d > 1 else [(2, 1), (3, 1)]) if d else [(2, 1)],
        rename=(lambda n, rn=rn, tag=tag: rn(n) + tag), workers=3, expect_paths=3,
        timeout_ms=4000 if tier == 'quick' else 60000).run()
 
@@ -1876,6 +1939,35 @@ def lot_preamble(chk, tier):
                'the C11 clauses are stated relative to the list returned by datastore.list_trials' % (2 if tier == 'quick' else 4))
 
 
+ACTIVE_FINDINGS = set()     # obligations of findings that are listed as open AND whose witness reproduces on the current tree
+
+
+def confirm_open_findings(chk):
+    """Only a finding that is listed as open and still reproduces suppresses anything.  A listed finding whose witness no
+    longer reproduces is stale: a NOTE is printed and its obligation is checked like any other (never a checker error).
+    Entries with status 'fixed' are not replayed at all."""
+    pool = ckit.ReplayPool()
+    todo = []
+    for f in chk.findings:
+        w = f.get('witness') or {}
+        if f.get('status', 'open') == 'open' and w.get('driver') == 'replay/c11_replay.py':
+            pool.start(f['obligation'], 'c11_replay.py', w['args'])
+            todo.append(f)
+    for f in todo:
+        out, raw = pool.get(f['obligation'], timeout=180)
+        if out and out.get('reproduced'):
+            ACTIVE_FINDINGS.add(f['obligation'])
+            chk.note('finding witness for %s re-confirmed on the real code.' % f['obligation'])
+        else:
+            msg = 'NOTE: property=C11 the recorded finding for %s no longer reproduces on the current tree (stale entry): the obligation is checked like any other' % f['obligation']
+            print(msg)
+            chk.note(msg)
+
+
+def open_finding(chk, name):
+    return chk.finding_for(name) if name in ACTIVE_FINDINGS else None
+
+
 def main(tier):
     chk = report.Check('C11', tier, level='proof',
                        technique='contract-based deductive verification: VCs from the real AST (pyvc symbolic execution, numpy fragment as '
@@ -1886,16 +1978,13 @@ def main(tier):
         chk.trust(t)
     chk.assume('floats are extended reals (XReal): comparisons exact, inputs range over all reals, not only doubles')
     pool = ckit.ReplayPool()
-    for f in chk.findings:
-        w = f.get('witness') or {}
-        if f.get('status', 'open') == 'open' and w.get('driver') == 'replay/c11_replay.py':
-            pool.start(f['obligation'], 'c11_replay.py', w['args'])
     start_bounded(pool, tier)
+    confirm_open_findings(chk)
     lot_preamble(chk, tier)
     fast_preamble(chk, tier)
     xla_preamble(chk, tier)
     tasks = [('xla_simple', check_xla_simple, ())]
-    for k in (1, 2, 3, 4):
+    for k in (1, 2, 3, 4, 5):
         tasks.append(('xla_frontier_%d' % k, check_xla_frontier, (k,)))
     tasks.append(('xla_class', check_xla_frontier, (10, True)))
     tasks += [('naive', check_naive, ()), ('rank', check_rank, ()), ('fast_against_strict', check_fast_against, (True,)),
@@ -1904,14 +1993,4 @@ def main(tier):
         tasks.append(('ListOptimalTrials.d%d' % d, check_list_optimal_d, (d,)))
     run_parallel(chk, tier, tasks, budget_s=600 if tier == 'quick' else 3000)
     collect_bounded(chk, pool, tier)
-    # every recorded finding must still reproduce on the real code (otherwise the entry is stale: checker error)
-    for f in chk.findings:
-        if f.get('status', 'open') != 'open' or f['obligation'] not in pool.procs and f['obligation'] not in pool.results:
-            continue
-        out, raw = pool.get(f['obligation'], timeout=120)
-        if not (out and out.get('reproduced')):
-            chk.error('C11.known_finding.stale', 'the witness of the recorded finding for %s no longer reproduces on the real code: %s'
-                      % (f['obligation'], (out if out is not None else raw[-600:])))
-        else:
-            chk.note('finding witness for %s re-confirmed on the real code.' % f['obligation'])
     return chk.finish(min_obligations=5)
